@@ -14,6 +14,8 @@ import (
 	"os"
 	"path/filepath"
 	"runtime"
+	"runtime/debug"
+	"runtime/pprof"
 	"sort"
 	"strconv"
 	"strings"
@@ -161,11 +163,20 @@ func main() {
 	only := flag.String("only", "", "run only this harness")
 	workers := flag.Int("workers", 0, "worker count (0 = NumCPU)")
 	trace := flag.Bool("trace", false, "trace paths")
+	var cliParams paramFlags
+	flag.Var(&cliParams, "P", "override harness parameter key=int (repeatable)")
 	noreplay := flag.Bool("noreplay", false, "skip native replay (debugging only; never registers a verdict)")
+	cpuprof := flag.String("cpuprofile", "", "write cpu profile")
 	flag.Parse()
+	if *cpuprof != "" {
+		f, _ := os.Create(*cpuprof)
+		pprof.StartCPUProfile(f)
+		defer pprof.StopCPUProfile()
+	}
 	if *prop == "" {
 		fatal("-p required")
 	}
+	debug.SetGCPercent(600)
 	if t := os.Getenv("VERIF_TIER"); t != "" && !isFlagSet("tier") {
 		*tier = t
 	}
@@ -265,6 +276,13 @@ func main() {
 				cfg.Params[strings.TrimPrefix(k, "P.")] = n
 			}
 		}
+		for k, v := range cliParams {
+			cfg.Params[k] = v
+		}
+		cfg.UnwindOK = h.opt(*tier, "unwind_ok", "") == "1"
+		if sk := h.opt(*tier, "sigkeys", ""); sk != "" {
+			cfg.SigLabels = strings.Split(sk, ",")
+		}
 		cfg.Known = func(v *interp.Violation) (string, bool) { return kf.match(*prop, v) }
 		th := time.Now()
 		ex, err := prog.Explore(h.Name, cfg)
@@ -286,6 +304,10 @@ func main() {
 		for k, n := range ex.Stats.Aborts {
 			switch k {
 			case "assume", "assert-failed", "subsumed", "panic", "deadlock":
+			case "unwind":
+				if !cfg.UnwindOK {
+					rep.Reduced = append(rep.Reduced, fmt.Sprintf("%s x%d (%s)", k, n, ex.Stats.AbortSamples[k]))
+				}
 			default:
 				rep.Reduced = append(rep.Reduced, fmt.Sprintf("%s x%d (%s)", k, n, ex.Stats.AbortSamples[k]))
 			}
@@ -392,6 +414,25 @@ func main() {
 	if vacuous || reachBad > 0 {
 		os.Exit(2)
 	}
+}
+
+type paramFlags map[string]int
+
+func (p *paramFlags) String() string { return fmt.Sprint(map[string]int(*p)) }
+func (p *paramFlags) Set(s string) error {
+	if *p == nil {
+		*p = paramFlags{}
+	}
+	kv := strings.SplitN(s, "=", 2)
+	if len(kv) != 2 {
+		return fmt.Errorf("want key=int")
+	}
+	n, err := strconv.Atoi(kv[1])
+	if err != nil {
+		return err
+	}
+	(*p)[kv[0]] = n
+	return nil
 }
 
 func parseSolver(s string, timeout int) interp.SolverSpec {
